@@ -10,31 +10,20 @@
 From FV Require Import Base ListLib GroupModel GroupProofs GroupProofs2 GroupWitness.
 Open Scope N_scope.
 
-(* Known finding K11 (not fixed in /repo): when --max-suffix-size covers a whole file that passes the
-   suffix threshold while --max-prefix-size exceeds its length, the prefix stage and the suffix stage hash
-   the same bytes, `old_hash ^ new_hash` is 0 for every such file and the contents stage skips them
-   (len < prefix length): files of equal length with different contents are reported as one group. *)
-Theorem C01_sound_except_K11 :
+(* (K11, found by this development and repaired by f4a00ae: the suffix stage is now skipped when the suffix would
+   cover the whole file; `k11_regression` in GroupWitness.v is the former counterexample.) *)
+Theorem C01_sound :
   forall (H : list N -> hash) (T : list N -> option (list N)) (c : gcfg) (n : nd) (scanned : list file),
     wf_nd n -> wf_ids scanned -> wf_len scanned -> collision_free H c scanned ->
-    ~ K11 c scanned -> skip_content c = false -> transform c = false ->
+    skip_content c = false -> transform c = false ->
     forall g, In g (group_files H T c n scanned) ->
     forall f f', In f (gfiles g) -> In f' (gfiles g) ->
       fdata f = fdata f' /\ glen g = N.of_nat (length (fdata f)).
 Proof. exact c01_sound. Qed.
-Print Assumptions C01_sound_except_K11.
-
-Theorem C01_K11_witness :
-  exists (H : list N -> hash) (T : list N -> option (list N)) (c : gcfg) (n : nd) (scanned : list file),
-    wf_nd n /\ wf_ids scanned /\ wf_len scanned /\ collision_free H c scanned /\
-    skip_content c = false /\ transform c = false /\ K11 c scanned /\
-    ~ (forall g, In g (group_files H T c n scanned) -> forall f f', In f (gfiles g) -> In f' (gfiles g) ->
-         fdata f = fdata f' /\ glen g = N.of_nat (length (fdata f))).
-Proof. exact k11_witness. Qed.
-Print Assumptions C01_K11_witness.
+Print Assumptions C01_sound.
 
 (* --transform: all members of a group have the same transform output, and the printed length is its
-   length (the whole stream is hashed, F4/F5 repaired).  K11 does not concern this path. *)
+   length (the whole stream is hashed, F4/F5 repaired). *)
 Theorem C01_transform :
   forall (H : list N -> hash) (T : list N -> option (list N)) (c : gcfg) (n : nd) (scanned : list file),
     wf_nd n -> wf_ids scanned -> collision_free_T H T scanned -> transform c = true ->
@@ -49,14 +38,24 @@ Print Assumptions C01_transform.
    contents stage separates them, the hard-linked pair is one replica and is dropped. *)
 Example C01_hypotheses_inhabited :
   wf_nd (nd_of_mode 0) /\ wf_ids ex_files /\ wf_len ex_files /\ collision_free toyH ex_cfg ex_files /\
-  ~ K11 ex_cfg ex_files /\
   shows (group_files toyH idT ex_cfg (nd_of_mode 0) ex_files) = [(6, [[[47]; [97]]; [[47]; [98]]])].
 Proof.
   split; [exact wf_nd_mode0|]. split; [exact (wf_ids_b_sound _ ex_ids)|]. split; [exact (wf_len_b_sound _ ex_len)|].
-  split; [exact (cf_b_sound _ _ _ ex_cf)|]. split; [exact ex_notK11|exact ex_output].
+  split; [exact (cf_b_sound _ _ _ ex_cf)|exact ex_output].
 Qed.
 Example C01_transform_inhabited :
   collision_free_T toyH head5 ex_files /\
   shows (group_files toyH head5 ex_cfgT (nd_of_mode 0) ex_files)
   = [(5, [[[47]; [97]]; [[47]; [98]]; [[47]; [99]]; [[47]; [100]]])].
 Proof. split; [exact (cfT_b_sound _ _ _ ex_cfT)|exact ex_outputT]. Qed.
+
+(* regression instance of K11: two pairs of 65536-byte files, SSD, --max-prefix-size = --max-suffix-size = 70000
+   (every hypothesis of C01_sound holds): two groups, not one *)
+Example C01_K11_regression :
+  wf_ids k11_files /\ wf_len k11_files /\ collision_free toyH k11_cfg k11_files /\
+  shows (group_files toyH idT k11_cfg (nd_of_mode 0) k11_files)
+  = [(65536, [[[47]; [99]]; [[47]; [100]]]); (65536, [[[47]; [97]]; [[47]; [98]]])].
+Proof.
+  split; [exact (wf_ids_b_sound _ k11_ids)|]. split; [exact (wf_len_b_sound _ k11_len)|].
+  split; [exact (cf_b_sound _ _ _ k11_cf)|exact k11_regression].
+Qed.
